@@ -6,10 +6,10 @@ use crate::verif_models::ghost;
 use bitcoin::hashes::{hash160, sha256, sha256d};
 
 // pre-drawn answer of the abstracted multisig predicate (cascade harness only)
-static mut MS: bool = false;
-static mut MS_CALLS: usize = 0;
+static mut MS: crate::verif_models::Tg<bool> = crate::verif_models::Tg { v: false, tag: 0x5eedc0de00000049 };
+static mut MS_CALLS: crate::verif_models::Tg<usize> = crate::verif_models::Tg { v: 0, tag: 0x5eedc0de0000004a };
 fn stub_is_multisig(_s: &Script) -> bool {
-    unsafe { MS_CALLS += 1; MS }
+    unsafe { MS_CALLS.v += 1; MS.v }
 }
 fn stub_from_utf8(v: Vec<u8>) -> Result<String, std::string::FromUtf8Error> {
     core::mem::forget(v);
@@ -18,7 +18,7 @@ fn stub_from_utf8(v: Vec<u8>) -> Result<String, std::string::FromUtf8Error> {
 /// The multisig verdict the oracle uses: CBMC mode = the uninterpreted boolean handed to the
 /// cascade; native replay = the real predicate (its own correctness is the btc_multisig harness).
 #[cfg(not(test))]
-fn ms_verdict(_s: &[u8]) -> bool { unsafe { MS } }
+fn ms_verdict(_s: &[u8]) -> bool { unsafe { MS.v } }
 #[cfg(test)]
 fn ms_verdict(s: &[u8]) -> bool { ref_multisig(s) }
 
@@ -170,7 +170,7 @@ macro_rules! cascade {
             ghost::init(kani::any());
             let s: [u8; $len] = kani::any();
             let ms: bool = kani::any();
-            unsafe { MS = ms; }
+            unsafe { MS.v = ms; }
             let verdict = ms_verdict(&s);
             let t = ref_type(&s, verdict);
             $( kani::cover!(t == $cov, $covname); )*
@@ -369,3 +369,44 @@ btc_payload!(c16_btc_direct_4, 40, [0x6a, 0x04], 4);
 btc_payload!(c16_btc_pd1_4, 40, [0x6a, 0x4c, 0x04], 4);
 //@ id=C16,C05 tier=thorough name=c16_btc_direct_1 timeout=900 role=btc_payload bound=OP_RETURN+direct-push,1-byte
 btc_payload!(c16_btc_direct_1, 40, [0x6a, 0x01], 1);
+
+// ---- C14 long sweeps: per-token counters swept across their u8 boundary ------------------------
+// [head] k x (01 xx) [n] [c] on the Bitcoin path (real is_multisig walker), payload bytes symbolic.
+macro_rules! long_sweep_btc {
+    ($name:ident, $k:expr, $head:expr, $n:expr, $c:expr, $unw:expr) => {
+        #[kani::proof]
+        #[kani::unwind($unw)]
+        #[kani::stub(bitcoin::base58::encode_check_to_fmt, ghost::stub_b58ck_fmt)]
+        #[kani::stub(bitcoin::bech32::segwit::encode_lower_to_fmt_unchecked, ghost::stub_bech)]
+        #[kani::stub(<bitcoin::hashes::sha256::HashEngine as bitcoin::hashes::HashEngine>::input, ghost::stub_engine_input)]
+        #[kani::stub(<bitcoin::hashes::hash160::Hash as bitcoin::hashes::Hash>::from_engine, ghost::stub_hash160_fin)]
+        #[kani::stub(<bitcoin::hashes::sha256d::Hash as bitcoin::hashes::Hash>::from_engine, ghost::stub_sha256d_fin)]
+        #[kani::stub(std::string::String::from_utf8, stub_from_utf8)]
+        fn $name() {
+            const L: usize = 3 + 2 * $k;
+            let mut s = [0u8; L];
+            s[0] = $head;
+            let mut i = 0;
+            while i < $k { s[1 + 2 * i] = 0x01; s[2 + 2 * i] = kani::any(); i += 1; }
+            s[L - 2] = $n;
+            s[L - 1] = $c;
+            let r = eval_from_bytes(&s, 0x00);
+            // reference: more than 16 keys can never be an m-of-n multisig
+            let want_multi = ref_multisig(&s);
+            assert!((r.pattern == ScriptPattern::Pay2MultiSig) == want_multi, "C05:type_multisig_iff_wellformed_m_of_n");
+            assert!(r.address.is_none(), "C14:no_address_for_long_token_soup");
+            kani::cover!(true, "long script evaluated without panic");
+            core::mem::forget(r);
+        }
+    };
+}
+//@ id=C14,C05 tier=quick name=c14_sweep_btc_16 timeout=1800 role=long_sweep bound=OP_1+16-pushes+OP_16+CHECKMULTISIG fsarr=1024
+long_sweep_btc!(c14_sweep_btc_16, 16, 0x51, 0x60, 0xae, 40);
+//@ id=C14,C05 tier=quick name=c14_sweep_btc_17 timeout=1800 role=long_sweep bound=OP_1+17-pushes+OP_16+CHECKMULTISIG fsarr=1024
+long_sweep_btc!(c14_sweep_btc_17, 17, 0x51, 0x60, 0xae, 40);
+//@ id=C14,C05 tier=quick name=c14_sweep_btc_256 timeout=3000 role=long_sweep bound=OP_1+256-pushes+OP_1+CHECKMULTISIG(u8-counter-boundary) fsarr=1024 mem=24
+long_sweep_btc!(c14_sweep_btc_256, 256, 0x51, 0x51, 0xae, 520);
+//@ id=C14,C05 tier=thorough name=c14_sweep_btc_255 timeout=3000 role=long_sweep bound=OP_1+255-pushes fsarr=1024 mem=24
+long_sweep_btc!(c14_sweep_btc_255, 255, 0x51, 0x51, 0xae, 520);
+//@ id=C14,C05 tier=thorough name=c14_sweep_btc_257 timeout=3000 role=long_sweep bound=OP_1+257-pushes+OP_1 fsarr=1024 mem=24
+long_sweep_btc!(c14_sweep_btc_257, 257, 0x51, 0x51, 0xae, 520);
